@@ -21,7 +21,7 @@ CLAIMED = {
    note="Trusted: dst/refmodel.py (independent numpy.longdouble posterior moments from the visible parameters); tolerance 1e-9 relative to (t, t*scale, t*scale^2, |ll|)."),
  "C17": dict(
    design="5.5",
-   technique="deterministic simulation of an operation history on one GMMMachine (setters in any order, floors raised/lowered, EM steps on NumPy or on Dask under the simulated scheduler, restart events deepcopy/pickle/HDF5) with a fresh-machine reference model checked after every operation",
+   technique="deterministic simulation of an operation history on one GMMMachine (setters in any order, floors raised/lowered, EM steps on NumPy or on Dask under the simulated scheduler, restart events deepcopy/pickle/HDF5; the machine a copy was taken from and the prior of a MAP machine stay alive and are modified in between) with a fresh-machine reference model checked after every operation",
    text="Seeded history exploration: 3..25 public operations per history incl. restart-from-durable-state events; after every operation likelihoods and statistics on a probe batch must equal those of a freshly built machine with the same visible parameters (1e-12) and variances must respect the current floors. Histories are minimised by dropping operations. Sampling, not proof.",
    note="Trusted: the fresh machine built through public constructor+setters is the reference model; every generated change is >= 5 %, five orders of magnitude above the tolerance."),
  "C18": dict(
@@ -31,7 +31,7 @@ CLAIMED = {
    note="Trusted: h5py; the harness's legacy writer (validated at setup against the repository's own legacy/current file pair)."),
  "C19": dict(
    design="5.7",
-   technique="deterministic simulation of a caller history: seeded sequences of public calls on a pool of caller-owned objects and Dask collections over them (shared / isolated / placed executor models), with caller interference (in-place scribble and restore) as the injected fault; deep-digest, repeat-call and shares_memory invariants after every call",
+   technique="deterministic simulation of a caller history: seeded sequences of public calls on a pool of caller-owned objects and Dask collections over them (shared / isolated / placed executor models), with caller interference (in-place scribble and restore, also while a snapshot of an adapted machine is trained) as the injected fault; deep-digest, repeat-call and shares_memory invariants after every call",
    text="Seeded history exploration: 5..30 calls per history over every public entry point the property lists, NumPy and Dask inputs; after every call every caller-owned object must be bit-identical (I1), a repeated call must return a bitwise-equal result (I2), and after the caller overwrites an input no previously trained model may change or share memory with a caller buffer (I3). Sampling, not proof.",
    note="Trusted: BLAKE2 deep digest over array bytes / scalars / visible parameters; SimScheduler's shared mode hands tasks the caller's own objects (as Dask's threaded scheduler does). Calls that raise are not C19 violations (inputs must still be untouched)."),
  "C16": dict(
